@@ -273,3 +273,159 @@ pub fn mutate_file(rng: &mut Rng, src: &[u8]) -> Vec<u8> {
     }
     lines.join(&b'\n')
 }
+
+use proguard::{ProguardMapping, ProguardRecord};
+use serde_json::{json, Value};
+
+/// names and numbers occurring in a mapping file (input to query generation only)
+pub struct Universe {
+    pub classes: Vec<String>,
+    pub methods: Vec<String>,
+    pub args: Vec<String>,
+    pub lines: Vec<u128>,
+}
+
+pub fn universe(src: &[u8]) -> Universe {
+    let mut u = Universe { classes: vec![], methods: vec![], args: vec![], lines: vec![] };
+    for r in ProguardMapping::new(src).iter().flatten() {
+        match r {
+            ProguardRecord::Class { original, obfuscated } => {
+                u.classes.push(obfuscated.to_string());
+                u.classes.push(original.to_string());
+            }
+            ProguardRecord::Method { obfuscated, original, arguments, line_mapping, .. } => {
+                u.methods.push(obfuscated.to_string());
+                u.methods.push(original.to_string());
+                u.args.push(arguments.to_string());
+                if let Some(lm) = line_mapping {
+                    for x in [Some(lm.startline), Some(lm.endline), lm.original_startline, lm.original_endline].into_iter().flatten() {
+                        u.lines.push(x as u128);
+                    }
+                }
+            }
+            _ => {}
+        }
+    }
+    for v in [&mut u.classes, &mut u.methods, &mut u.args] {
+        v.sort();
+        v.dedup();
+    }
+    u.lines.sort();
+    u.lines.dedup();
+    u
+}
+
+/// a near miss of a name: neighbour in sort order (one byte changed / appended / removed)
+pub fn near_miss(rng: &mut Rng, s: &str) -> String {
+    let mut b = s.as_bytes().to_vec();
+    match rng.below(5) {
+        0 => b.push(*rng.pick(&[b"$", b".", b"a", b"0"])[0..1].first().unwrap()),
+        1 => {
+            b.pop();
+        }
+        2 => {
+            if let Some(l) = b.last_mut() {
+                if *l < 0x7e && *l > 0x21 {
+                    *l += 1;
+                }
+            }
+        }
+        3 => {
+            if let Some(l) = b.last_mut() {
+                if *l < 0x7f && *l > 0x22 {
+                    *l -= 1;
+                }
+            }
+        }
+        _ => b.insert(0, b'a'),
+    }
+    String::from_utf8(b).unwrap_or_else(|_| s.to_string())
+}
+
+fn pick_name(rng: &mut Rng, pool: &[String], unknown: &str) -> String {
+    if pool.is_empty() || rng.chance(1, 12) {
+        return unknown.to_string();
+    }
+    let n = rng.pick_ref(pool).clone();
+    if rng.chance(1, 8) {
+        near_miss(rng, &n)
+    } else {
+        n
+    }
+}
+
+pub fn query_line(rng: &mut Rng, u: &Universe) -> u128 {
+    match rng.below(10) {
+        0..=3 => rng.below(67) as u128,
+        4..=7 if !u.lines.is_empty() => {
+            // within 1 of a range boundary, or an interior line
+            let l = *rng.pick_ref(&u.lines);
+            match rng.below(4) {
+                0 => l.saturating_sub(1),
+                1 => l,
+                2 => l + 1,
+                _ => {
+                    let l2 = *rng.pick_ref(&u.lines);
+                    (l + l2) / 2
+                }
+            }
+        }
+        8 => rng.pick(&[(1u128 << 32) - 2, (1u128 << 32) - 1, 1u128 << 32, (1u128 << 64) - 1, (1u128 << 31)]),
+        _ => rng.below(6) as u128,
+    }
+}
+
+fn bytes_json(s: &str) -> Value {
+    Value::Array(s.bytes().map(Value::from).collect())
+}
+
+fn dec_json(n: u128) -> Value {
+    Value::Array(n.to_string().bytes().map(|c| Value::from(c - b'0')).collect())
+}
+
+/// one query over the universe of a file (plus unknown / near-miss names)
+pub fn query(rng: &mut Rng, u: &Universe, focus: &str) -> Value {
+    let class = pick_name(rng, &u.classes, "no.such.Class");
+    let method = pick_name(rng, &u.methods, "nosuchmethod");
+    let kind = match focus {
+        "frame" => 0,
+        "params" => 1,
+        "lookup" | "names" => 2 + rng.below(3),
+        _ => rng.below(5),
+    };
+    match kind {
+        0 => {
+            let file = if rng.chance(1, 2) { json!([]) } else { json!([bytes_json("Obf.java")]) };
+            json!({"t": "frame", "frame": {"class": bytes_json(&class), "method": bytes_json(&method),
+                   "line": dec_json(query_line(rng, u)), "file": file, "params": []}})
+        }
+        1 => {
+            let p = pick_name(rng, &u.args, "no,such");
+            json!({"t": "frame", "frame": {"class": bytes_json(&class), "method": bytes_json(&method),
+                   "line": [0], "file": [], "params": [bytes_json(&p)]}})
+        }
+        2 => json!({"t": "class", "name": bytes_json(&class)}),
+        3 => json!({"t": "method", "class": bytes_json(&class), "method": bytes_json(&method)}),
+        _ => {
+            let msg = if rng.chance(1, 2) { json!([]) } else { json!([bytes_json("boom: x")]) };
+            json!({"t": "throwable", "throwable": {"class": bytes_json(&class), "message": msg}})
+        }
+    }
+}
+
+/// hundreds of classes with adversarially similar obfuscated names, one or two methods each
+pub fn mapping_many_classes(rng: &mut Rng, n: usize) -> Vec<u8> {
+    let parts: &[&str] = &["a", "b", "a$", "a.", "aa", "é", "A", "a$a", "a.a", "ab", "$", "a-", "a0"];
+    let mut out = String::new();
+    for k in 0..n {
+        let mut name = String::new();
+        for _ in 0..rng.range(1, 3) {
+            name.push_str(rng.pick(parts));
+        }
+        out.push_str(&format!("com.example.K{} -> {}:\n", k, name));
+        for j in 0..rng.below(3) {
+            out.push_str(&format!("    void p{}_{}() -> {}\n", k, j, rng.pick(&["m", "n"])));
+        }
+    }
+    out.into_bytes()
+}
